@@ -256,7 +256,7 @@ theorem decodeField_ser {P : Params} (hP : P.valid = true) (S : Schema) (total f
     decodeField P S total (decodeType P S total fuel) f (ser v ++ rest) slot =
       (readField P S total fuel f v rest.length slot).mapv (·, rest) := by
   simp only [Field.ok, Bool.and_eq_true, Bool.or_eq_true, Bool.not_eq_true', beq_iff_eq] at hfok
-  have hnc := hfok.2
+  have hnc := hfok.1.2
   have hslot := decodeSlot_ser hP S total fuel true f.ty v rest slot hv hwire.symm
     (fun _ => hrv fuel f.ty.deref _ _ hv (by rw [Ty.deref_wire]; exact hwire.symm))
   unfold readField decodeField
